@@ -492,3 +492,24 @@ def loop_total(ck, rule, inst, body_where, loop_body, sink, excused=None, allow_
         return False
     ck.ok(rule, inst, "every iteration reaches the sink; no early exit (%d path class(es))" % len(res))
     return True
+
+
+def collector_never_breaks(ck, rule, facts, crate, impl_prefix, name, floor=1):
+    """K1: a visitor whose job is to *collect every occurrence* must not abort the traversal: no method of the impl constructs
+    ControlFlow::Break (the callers ignore the result, so a Break silently drops everything visited afterwards)."""
+    n = 0
+    for key, b in sorted(facts.bodies(crate).items()):
+        if not key.startswith(impl_prefix) or b.thir is None:
+            continue
+        n += 1
+        meth = key[len(impl_prefix):].lstrip(":")
+        brk = [x for t in thir_all(facts, b) for x in walk(t)
+               if x.get("k") == "adt" and str(x.get("adt", "")).endswith("ControlFlow") and x.get("v") == "Break"]
+        if brk:
+            ck.violation(rule, "%s::%s:breaks" % (name, meth), b.where(brk[0].get("ln")),
+                         "%s is a collecting visitor but `%s` returns ControlFlow::Break: the traversal stops there and everything that "
+                         "would have been visited afterwards is silently left out" % (name, meth))
+        else:
+            ck.ok(rule, "%s::%s:never-breaks" % (name, meth))
+    ck.floor(rule, "%s.methods" % name, n, floor)
+    return n
